@@ -397,6 +397,8 @@ type Printer struct {
 	nums     map[any]int // local numbering of the current function
 	gnums    map[any]int // numbering of unnamed globals
 	Explicit bool        // spell numbered locals/labels explicitly where LLVM allows ("%3 = ", "3:")
+	inVector int         // depth inside vector constants (Noise.OverwideInts leaves their elements alone)
+	nInt     int         // integer constants printed so far (Noise.OverwideInts)
 }
 
 // idNum spells an unnamed value's number, with redundant leading zeros under Noise.LeadingZeros
@@ -884,6 +886,24 @@ func (p *Printer) constBody(c *Const) string {
 		if c.Lit != "" {
 			return c.Lit
 		}
+		if noise.OverwideInts && p.inVector == 0 && c.T.K == Int && c.T.Bits > 1 {
+			// every fourth integer constant is spelled with a literal too wide for its type: LLVM reads
+			// literals modulo 2^N, so v + k*2^N denotes v (k chosen so that the literal also crosses the
+			// 64-bit boundaries)
+			p.nInt++
+			if p.nInt%4 == 0 {
+				k := new(big.Int).Lsh(big.NewInt(1), uint(c.T.Bits))
+				switch (p.nInt / 4) % 4 {
+				case 1:
+					k.Neg(k)
+				case 2:
+					k.Lsh(k, 64)
+				case 3:
+					k.Lsh(k, 64).Neg(k)
+				}
+				return k.Add(k, c.Int).String()
+			}
+		}
 		return c.Int.String()
 	case CFloat:
 		return c.Lit
@@ -918,9 +938,11 @@ func (p *Printer) constBody(c *Const) string {
 		return "[" + strings.Join(es, ", ") + "]"
 	case CVector:
 		var es []string
+		p.inVector++
 		for _, e := range c.Elems {
 			es = append(es, p.constTV(e))
 		}
+		p.inVector--
 		body := strings.Join(es, ", ")
 		if strings.HasPrefix(body, "{") {
 			// `<{` would be lexed as the start of a packed struct
